@@ -214,6 +214,34 @@ def check_plumbing(ctx, rep):
     conv = ctx.prog.module(BDSK).functions.get('epidemiology_to_birth_death')
     if conv is None:
         raise AnalysisError('epidemiology_to_birth_death not found')
+    # every conversion made by the model passes its four quantities: R, delta, s and the removal probability (whatever method makes the call)
+    cparams = [a.arg for a in conv.args.args]
+    want = {'R': 'R', 'delta': 'delta', 's': 's', 'r': 'removal_probability'}
+    n_conv = 0
+    for mfn in [b for b in cls.node.body if isinstance(b, ast.FunctionDef)]:
+        for c in ast.walk(mfn):
+            if not (isinstance(c, ast.Call) and isinstance(c.func, ast.Name) and c.func.id == 'epidemiology_to_birth_death'):
+                continue
+            n_conv += 1
+            bound = dict(zip(cparams, c.args))
+            bound.update({k.arg: k.value for k in c.keywords if k.arg})
+            for pname, attr in want.items():
+                if pname not in cparams:
+                    continue
+                v = bound.get(pname)
+                srcs = set()
+                if v is not None:
+                    srcs = {self_attr(a) for a in ast.walk(v) if self_attr(a)}
+                    for nm in {n.id for n in ast.walk(v) if isinstance(n, ast.Name)}:
+                        for st in ast.walk(mfn):
+                            if isinstance(st, ast.Assign) and any(isinstance(t, ast.Name) and t.id == nm for t in st.targets):
+                                srcs |= {self_attr(a) for a in ast.walk(st.value) if self_attr(a)}
+                rep.check('C09.K', f"BDSKModel.{mfn.name}::conversion-receives-{pname}", attr in srcs, where(cls.module, c), {'argument': ast.unparse(v) if v is not None else None, 'sources': sorted(srcs)},
+                          f"BDSKModel.{mfn.name} converts (R, δ, s) to birth-death rates without handing `{pname}` from self.{attr}: "
+                          + ("with a removal probability r ≠ 1 the conversion must use μ + rψ = δ; leaving r out computes ψ and μ with the r = 1 formulas while r is still "
+                             "passed to the density" if pname == 'r' else f"the rates are computed from another quantity than the model's {attr}"))
+    if n_conv < 1:
+        raise AnalysisError('BDSKModel never calls epidemiology_to_birth_death')
     p = [a.arg for a in conv.args.args]
 
     def atom(e):
@@ -705,6 +733,122 @@ def check_tie_convention(ctx, rep):
                   f"across the boundary with `{norm_text(c)[:50]}`: the two conventions disagree for a node exactly on a boundary, so refining the epochs at a node time changes the density")
 
 
+def check_rho_tip_alignment(ctx, rep):
+    """C09.I — which sampling probability decides that a tip on an epoch boundary is rho-sampled.  rho is laid out one entry per epoch, entry j belonging to the boundary that
+    *ends* epoch j (times[j+1]; C09.R keeps the present last).  For a tip exactly on boundary k (k = 1 … m) the index expression handed to rho.gather in the definition of
+    `is_rho_tip` is evaluated in an abstract index domain — searchsorted(times, times[k], right=True) = k + 1, right=False = k; clamp; ± constants; m — for m = 2, 3, 4 and
+    must be k − 1, separately for inner boundaries (k < m) and for the present (k = m)."""
+    cls = ctx.classes.get('torchtree.evolution.bdsk.PiecewiseConstantBirthDeath')
+    fn = cls.resolve('log_prob')[1]
+    mod = cls.module
+    defs = local_assignments(fn)
+    target = None
+    for st in ast.walk(fn):
+        if isinstance(st, ast.Assign) and isinstance(st.targets[0], ast.Name) and st.targets[0].id == 'is_rho_tip':
+            target = st
+    if target is None:
+        rep.undecided('C09.I', 'PiecewiseConstantBirthDeath.log_prob::rho-of-a-tip-on-a-boundary', where(mod, fn), '`is_rho_tip` not found')
+        return
+    gathers = []
+    for e in backward_slice(target.value, {k: v for k, v in defs.items() if k not in ('rho', 'times', 'y', 'indices_y')}):
+        for c in ast.walk(e):
+            if isinstance(c, ast.Call) and method_name(c) == 'gather' and isinstance(c.func, ast.Attribute) and isinstance(c.func.value, ast.Name) and c.func.value.id == 'rho' and len(c.args) == 2:
+                gathers.append(c)
+    if len(gathers) != 1:
+        rep.undecided('C09.I', 'PiecewiseConstantBirthDeath.log_prob::rho-of-a-tip-on-a-boundary', where(mod, target), f"{len(gathers)} lookups of rho in the definition of is_rho_tip")
+        return
+    idx = gathers[0].args[1]
+
+    def ev(e, m, k, depth=0):
+        if depth > 8:
+            raise Unsupported(e, 'definition chain too deep')
+        if isinstance(e, ast.Constant) and isinstance(e.value, int):
+            return e.value
+        if isinstance(e, ast.Name):
+            if e.id == 'm':
+                return m
+            ds = defs.get(e.id, [])
+            if len(ds) == 1:
+                return ev(ds[0], m, k, depth + 1)
+            raise Unsupported(e, f"{e.id} has {len(ds)} definitions")
+        if isinstance(e, ast.BinOp) and isinstance(e.op, (ast.Add, ast.Sub)):
+            a, b = ev(e.left, m, k, depth + 1), ev(e.right, m, k, depth + 1)
+            return a + b if isinstance(e.op, ast.Add) else a - b
+        if isinstance(e, ast.Call) and method_name(e) in ('clamp', 'clip'):
+            torch_fn = isinstance(e.func.value, ast.Name) and e.func.value.id == 'torch'
+            v = ev(e.args[0] if torch_fn else e.func.value, m, k, depth + 1)
+            rest = e.args[1:] if torch_fn else e.args
+            lo = next((kw.value for kw in e.keywords if kw.arg == 'min'), rest[0] if len(rest) > 0 else None)
+            hi = next((kw.value for kw in e.keywords if kw.arg == 'max'), rest[1] if len(rest) > 1 else None)
+            if lo is not None and not (isinstance(lo, ast.Constant) and lo.value is None):
+                v = max(v, ev(lo, m, k, depth + 1))
+            if hi is not None and not (isinstance(hi, ast.Constant) and hi.value is None):
+                v = min(v, ev(hi, m, k, depth + 1))
+            return v
+        if isinstance(e, ast.Call) and method_name(e) in ('searchsorted', 'bucketize'):
+            ss = method_name(e) == 'searchsorted'
+            grid, val = (e.args[0], e.args[1]) if ss else (e.args[1], e.args[0])
+            if not (isinstance(grid, ast.Name) and grid.id == 'times' and isinstance(val, ast.Name) and val.id == 'y'):
+                raise Unsupported(e, 'search that is not (times, y)')
+            right = any(kw.arg == 'right' and isinstance(kw.value, ast.Constant) and kw.value.value is True for kw in e.keywords)
+            return k + 1 if right else k
+        raise Unsupported(e, f"index expression {ast.unparse(e)[:40]}")
+    for label, ks in (('inner-boundary', lambda m: range(1, m)), ('present', lambda m: [m])):
+        wrong = []
+        try:
+            for m in (2, 3, 4):
+                for k in ks(m):
+                    got = ev(idx, m, k)
+                    if got != k - 1:
+                        wrong.append((m, k, got))
+        except Unsupported as u:
+            rep.undecided('C09.I', f"PiecewiseConstantBirthDeath.log_prob::rho-of-a-tip-on-a-boundary::{label}", where(mod, target), str(u))
+            continue
+        rep.check('C09.I', f"PiecewiseConstantBirthDeath.log_prob::rho-of-a-tip-on-a-boundary::{label}", not wrong, where(mod, gathers[0]),
+                  {'index': norm_text(idx)[:80], 'first_mismatch (m, boundary, index read)': wrong[:1]},
+                  f"for a tip exactly on {'an inner epoch boundary' if label.startswith('inner') else 'the present'} (boundary k of m) `is_rho_tip` reads rho[{norm_text(idx)[:40]}] = "
+                  f"rho[{wrong[0][2] if wrong else '?'}] for (m, k) = {wrong[0][:2] if wrong else '?'}, but the sampling probability of boundary k is rho[k − 1]: the tip is classified with "
+                  f"the sampling probability of another event (rho-sampled tips taken for psi-sampled ones or the reverse)")
+
+
+def check_exact_comparisons(ctx, rep):
+    """C09.E — rho-sampled tips are recognised by *exact* equality of their time with an epoch boundary (`times == y`).  Exact equality only works when both sides were computed
+    from the same floating-point numbers: the event times x, y must be measured from the last grid point itself, `times[..., -1:] − height`, not from a separately computed
+    origin (the grid built from origin / m by cumsum ends one ulp away from the origin for many (m, origin))."""
+    cls = ctx.classes.get('torchtree.evolution.bdsk.PiecewiseConstantBirthDeath')
+    fn = cls.resolve('log_prob')[1]
+    mod = cls.module
+    defs = local_assignments(fn)
+    compared = set()
+    for c in ast.walk(fn):
+        if isinstance(c, ast.Compare) and len(c.ops) == 1 and isinstance(c.ops[0], ast.Eq):
+            sides = [c.left, c.comparators[0]]
+            txt = [ast.unparse(x) for x in sides]
+            if any('times' in t for t in txt):
+                for x, t in zip(sides, txt):
+                    if 'times' not in t:
+                        for n in ast.walk(x):
+                            if isinstance(n, ast.Name) and n.id in defs and n.id not in ('torch',):
+                                compared.add(n.id)
+    if not compared:
+        rep.undecided('C09.E', 'PiecewiseConstantBirthDeath.log_prob::exact-comparisons', where(mod, fn), 'no `times == <event time>` comparison found')
+        return
+    for v in sorted(compared):
+        ds = defs.get(v, [])
+        ok = bool(ds)
+        for d in ds:
+            good = isinstance(d, ast.BinOp) and isinstance(d.op, ast.Sub) and isinstance(d.left, ast.Subscript) and isinstance(d.left.value, ast.Name) and d.left.value.id == 'times' \
+                and ast.unparse(d.left.slice).replace(' ', '') in ('(...,slice(-1,None,None))', '...,-1:', '(Ellipsis,slice(-1,None,None))')
+            if not good:
+                good = isinstance(d, ast.BinOp) and isinstance(d.op, ast.Sub) and ast.unparse(d.left).replace(' ', '') == 'times[...,-1:]'
+            ok = ok and good
+        rep.check('C09.E', f"PiecewiseConstantBirthDeath.log_prob::{v}-measured-from-the-last-grid-point", ok, where(mod, ds[0]) if ds else where(mod, fn),
+                  {'definitions': [norm_text(d)[:60] for d in ds]},
+                  f"`{v}` is compared for exact equality with the epoch boundaries but is computed as `{norm_text(ds[0])[:50] if ds else '?'}`, not from `times[..., -1:]`: when the grid "
+                  f"is generated from the origin its last point can differ from the origin by one ulp, the equality then fails and rho-sampled tips at the present are treated as "
+                  f"psi-sampled (the n·log rho term is lost)")
+
+
 def run(ctx, rep):
     from sa import callbind
     callbind.run_for(ctx, rep, 'C09', 5)
@@ -727,10 +871,12 @@ def run(ctx, rep):
     rep.rule('C09.F', "constant and skyline models agree on log_q, A, last-epoch B and p, the first term, and on which parameters contribute direct log terms")
     rep.rule('C09.P', "evaluation is pure: no in-place update of a name that may alias stored state or an argument; no constructor snapshot of a parameter value used at evaluation")
     rep.rule('C09.B', "the side on which a birth exactly at an epoch boundary falls is the same for its epoch index (searchsorted right=…) and for the count of lineages crossing the boundary (< / <=)")
+    rep.rule('C09.I', "a tip exactly on epoch boundary k is classified as rho-sampled with the sampling probability of that boundary, rho[k-1] (index expression evaluated in an abstract index domain for m = 2..4)")
+    rep.rule('C09.E', "event times that are compared for exact equality with the epoch boundaries are measured from the last grid point itself")
     rep.rule('C09.R', "rho padded to one entry per epoch keeps the sampling probability last (zeros first)")
     rep.not_decided += ["epoch-refinement invariance", "boundary coincidences", "agreement with the master equations numerically"]
     for f, rule in ((check_options, 'C09.O'), (check_positional_options, 'C09.O'), (check_plumbing, 'C09.K'), (check_members, 'C09.U'), (check_formulas, 'C09.F'), (check_purity, 'C09.P'),
-                    (check_snapshots, 'C09.P'), (check_rho_alignment, 'C09.R'), (check_tie_convention, 'C09.B')):
+                    (check_snapshots, 'C09.P'), (check_rho_alignment, 'C09.R'), (check_tie_convention, 'C09.B'), (check_rho_tip_alignment, 'C09.I'), (check_exact_comparisons, 'C09.E')):
         try:
             f(ctx, rep)
         except Unsupported as u:
